@@ -42,5 +42,7 @@ run C14 cubed/core/ops.py 'target_chunks_ = target_chunks if last_stage else wri
 run C13 cubed/core/plan.py 'self._num_tasks \+= primitive_op.num_tasks' 'self._num_tasks = max(self._num_tasks, primitive_op.num_tasks)' --only totals
 run C06 cubed/random.py 'rg = Generator\(Philox\(key=root_seed \+ stream_id\)\)' 'rg = Generator(Philox(key=root_seed))' --only cubed.random
 run C06 cubed/random.py '    root_seed = pyrandom.getrandbits\(128\)\n' '    root_seed = 0\n' --only cubed.random
+run C01 cubed/core/ops.py 'result = nxp.concat\(\[result, reduced_chunk\], axis=axis\[0\]\)\n            result = reduce_func' 'result = nxp.concat([result, result], axis=axis[0])\n            result = reduce_func' --only 'cubed.core.ops:partial_reduce'
+run C12 cubed/core/ops.py 'k: nxp.concat\(\[result\[k\], reduced_chunk\[k\]\], axis=axis\[0\]\)' 'k: nxp.concat([result[k], reduced_chunk[k]], axis=axis[0]) if k != "n" else result[k]' --only 'partial_reduce[structured]'
 echo "selected=$n"
 exit $fail
